@@ -44,6 +44,7 @@ def _child(argv, cwd, env, out_path, err_path, stdin_path, opts):
     os.chdir(cwd)
     os.environ.clear()
     os.environ.update(env)
+    os.environ["PWD"] = cwd  # what a shell exports (the logical path, symlinks not resolved)
     fo = os.open(out_path, os.O_WRONLY | os.O_CREAT | os.O_TRUNC, 0o644)
     fe = os.open(err_path, os.O_WRONLY | os.O_CREAT | os.O_TRUNC, 0o644)
     fi = os.open(stdin_path or "/dev/null", os.O_RDONLY)
